@@ -7,14 +7,14 @@ VF_DYN("u32,u32,pgm1er0", uint32_t, uint32_t, PGMIndex<uint32_t, 1, 0>);
 VF_DYN_ENUM("u32,u32,pgm1er0", uint32_t, uint32_t, PGMIndex<uint32_t, 1, 0>);
 #elif VF_GROUP == 1
 VF_DYN("u64,u64,pgm2er1", uint64_t, uint64_t, PGMIndex<uint64_t, 2, 1>);
-VF_DYN("i32,i32,pgm4", int32_t, int32_t, PGMIndex<int32_t, 4>);
+VF_DYN("i32,i32,pgm5", int32_t, int32_t, PGMIndex<int32_t, 5>);
 VF_DYN("u64,f64,pgm8er2double", uint64_t, double, PGMIndex<uint64_t, 8, 2, double>);
 #elif VF_GROUP == 2
 VF_DYN("i64,u16,pgm64er64", int64_t, uint16_t, PGMIndex<int64_t, 64, 64>);
 VF_DYN_ENUM("i64,u16,pgm2er1", int64_t, uint16_t, PGMIndex<int64_t, 2, 1>);
 VF_DYN("u16,u16,pgm3", uint16_t, uint16_t, PGMIndex<uint16_t, 3>);
 #else
-VF_DYN("u32,ptr,pgm8", uint32_t, uint32_t *, PGMIndex<uint32_t, 8>);
+VF_DYN("u32,ptr,pgm6er3", uint32_t, uint32_t *, PGMIndex<uint32_t, 6, 3>);
 VF_DYN("u32,string,pgm4", uint32_t, std::string, PGMIndex<uint32_t, 4>);
 VF_DYN_ENUM("u32,string,pgm4", uint32_t, std::string, PGMIndex<uint32_t, 4>);
 #endif
